@@ -18,7 +18,8 @@ CLAIMS = {
                 'table, and validate/get/set of the slave context share one address transform, and the four tables of a context are distinct objects by default, and block getValues/setValues touch exactly the addressed cells. Necessary structural conditions; '
                 'request histories and "latest write wins" are not decided.'
                 ' Echo fields of write responses keep a 0 argument; contexts and blocks own their tables per instance.'
-                ' The accessors of the slave context write no attribute of the context; zero_mode defaults to the current Defaults.ZeroMode (read at construction).',
+                ' The accessors of the slave context write no attribute of the context; zero_mode defaults to the current Defaults.ZeroMode (read at construction).'
+                ' `context or default` cannot replace an application context (shared with C10 R7).',
         'note': 'In-memory ModbusSlaveContext only; struct and Python list semantics trusted; C18 decides block arithmetic.',
         'technique': 'path enumeration with value propagation + bitwise truth table + sibling comparison (static)',
     },
@@ -31,7 +32,8 @@ CLAIMS = {
                 " doException() builds the exception answer from the request's own function code and ids; the RTU length oracle sizes every request up to the 256-byte ADU limit (shared with C03)."
                 ' A normal answer is given only on paths that passed validate() for the addressed range.'
                 ' IllegalFunctionRequest is built from the received function code; reset() of a block does not move the window validate() tests.'
-                ' zero_mode defaults to the current Defaults.ZeroMode (read at construction, never bound in a signature).',
+                ' zero_mode defaults to the current Defaults.ZeroMode (read at construction, never bound in a signature).'
+                ' Every class lookupPduClass can return knows its RTU frame size, so an unknown function code reaches the decoder and is answered with exception 01.',
         'note': 'Attribute<->wire binding of guarded fields is decided by C01/C02; block range arithmetic by C18. Three genuine '
                 'defects (FC5 value word, FC15 quantity) are listed in known_findings.jsonl.',
         'technique': 'guard/dominance analysis over enumerated paths, interval + affine normal forms (static)',
@@ -58,7 +60,8 @@ CLAIMS = {
                 ' The asyncio handler is bound per instance to the server that created it; contexts and blocks own their tables per instance.'
                 " slaves() lists every hosted unit on every return path; doException() keeps the request's unit and transaction ids."
                 " header['uid'] is parsed from the same version of the receive buffer as the bytes handed to the decoder."
-                ' No store or forwarding context keeps a mutable default argument; the missing-slave / broadcast options are read at construction.',
+                ' No store or forwarding context keeps a mutable default argument; the missing-slave / broadcast options are read at construction.'
+                ' context.slaves() is read inside the receive-loop iteration that hands the chunk to the framer.',
         'note': 'Non-interference between unit datastores at run time follows from these routing facts plus C05 R2; it is not itself decided.',
         'technique': 'decision-table enumeration + path routing analysis + sibling agreement (static)',
     },
@@ -83,7 +86,8 @@ CLAIMS = {
                 " The threaded front-end's read size covers an ADU like the other front-ends; a response class declared should_respond = False stays unsendable on every constructor path."
                 ' No front-end stores anything derived from received traffic in its own attributes outside connection set-up.'
                 ' After a framer exception every connection-oriented front-end ends the connection as the reference does.'
-                ' No front-end freezes the missing-slave / broadcast policy at import time while its siblings read it at construction.',
+                ' No front-end freezes the missing-slave / broadcast policy at import time while its siblings read it at construction.'
+                ' slaves() hands every listener its own fresh unit list (shared with C10 R11).',
         'note': 'Decides agreement of the code summaries, not byte-identical outputs over histories or interleavings.',
         'technique': 'cross-checking sibling implementations via path summaries (static)',
     },
@@ -96,7 +100,8 @@ CLAIMS = {
                 ' hexlify_packets (evaluated on every reset / processing path) is total on byte strings; the RTU length oracle is a function of the frame bytes only.'
                 ' After a frame for a foreign unit was skipped the frame loop goes on to the frames behind it.'
                 ' A framer that handles one frame per call leaves nothing buffered behind a frame it skips.'
-                ' The readiness test of the delimiter framers is monotone under appending (shared with C11).',
+                ' The readiness test of the delimiter framers is monotone under appending (shared with C11).'
+                ' advanceFrame consumes exactly the frame that was handed on (shared with C03 R2).',
         'note': 'Only explicit length / delimiter tests classify as data absence. Equality of delivered sequences over all chunkings is not decided.',
         'technique': 'interprocedural path enumeration with effect classification (buffer shrink / delivery / raise) (static)',
     },
@@ -130,7 +135,8 @@ CLAIMS = {
                 ' ClientDecoder.decode contains whatever the reply codecs raise; client decoder tables and manager bookkeeping are per instance.'
                 ' An exchange that ended in a transport fault leaves no open connection behind (shared with C13); decode() of the response classes reads the spec layout (shared with C01; two known findings mirrored).'
                 " header[len] of the delimiter framers is the position of the reply's own (first) end delimiter (shared with C03)."
-                ' No response / exception class can be falsy while the manager tests the picked-up reply for truth (shared with C01 R14).',
+                ' No response / exception class can be falsy while the manager tests the picked-up reply for truth (shared with C01 R14).'
+                ' The synchronous client files replies in a table keyed by transaction id on every constructor path.',
         'note': 'Structural necessary conditions; reply contents and connection histories are not explored.',
         'technique': 'key-provenance / must-compare rule over region-scoped path enumeration (static)',
     },
@@ -143,7 +149,8 @@ CLAIMS = {
                 ' A read of unknown length asks for at least one whole ADU; hexlify_packets and exception texts are total; what an earlier exchange left in the framer is dropped before the next request (shared with C08).'
                 ' client.connect() precedes the transmission inside every attempt (the fault handler of the previous attempt closed the transport).'
                 ' A cached header is reset whenever bytes are dropped from the front of the buffer (shared with C06 R6).'
-                ' The retry policy and time budget default to the current Defaults values (read at construction).',
+                ' The retry policy and time budget default to the current Defaults values (read at construction).'
+                ' decode_data() of every framer reports only fields it parsed (an empty reply carries no unit / length).',
         'note': 'Wall-clock bounds of blocking transport calls and the correctness of a following transaction are not decided. '
                 'Six genuine defects are listed as known findings.',
         'technique': 'loop-variant extraction + decision-table enumeration + interprocedural exception-flow summaries (static)',
@@ -154,7 +161,8 @@ CLAIMS = {
                 'from the region, the public request API touches no transport method outside it, no second lock / wait / release '
                 'inside the region.'
                 ' The state the lock protects belongs to the manager instance.'
-                ' connect() precedes the transmission inside the locked region on every attempt (shared with C13 R20).',
+                ' connect() precedes the transmission inside the locked region on every attempt (shared with C13 R20).'
+                ' An empty / short first read raises, so the transport is closed before the lock is released (shared with C13 R6 / R4).',
         'note': 'GIL atomicity of single statements assumed; interleavings are not explored. One genuine defect (connect() before the lock) is a known finding.',
         'technique': 'lock-scope / who-may-call analysis over AST and class-level call graph (static)',
     },
@@ -165,7 +173,8 @@ CLAIMS = {
                 'failed deferred when not connected, FIFO append/pop(0), and the manager selected by a test on the final framer object.'
                 ' The pending-request registry belongs to the manager instance.'
                 ' Protocol objects own their framer and registry per instance; the receive call admits every reply in a segment (one known finding: replies are filtered by the unit of the first frame).'
-                ' Every received chunk reaches the framer unmodified on every normally returning path of dataReceived.',
+                ' Every received chunk reaches the framer unmodified on every normally returning path of dataReceived.'
+                ' The FIFO pick-up treats its argument as opaque (connectionLost hands it the stored deferreds).',
         'note': 'Deferred semantics are Twisted\'s; more than 65535 outstanding requests are out of scope. These rules are regression guards (all hold today).',
         'technique': 'dataflow / ordering rules over enumerated paths (static)',
     },
@@ -177,7 +186,8 @@ CLAIMS = {
                 'an involution pair; register transport formats, build() padding, to_string() = join of the current payload on every path, reset() emptying it, and the string format length taken from the bytes that are packed.'
                 ' The builder owns its payload list; build() is verified by folding its loop range and slice bounds for payload lengths 0..40.'
                 ' The bit helpers behind add_bits / decode_bits return freshly built lists and are not memoised.'
-                ' The numeric add_* methods pack the value they are given, unchanged.',
+                ' The numeric add_* methods pack the value they are given, unchanged.'
+                ' make_byte_string() encodes text as UTF-8.',
         'note': 'struct is trusted for value-level round trips; these rules decide the layout agreement for all values at once.',
         'technique': 'writer/reader pair table + sibling transformation comparison via value propagation (static)',
     },
@@ -190,7 +200,8 @@ CLAIMS = {
                 ' Decoder tables are owned by the decoder instance (register() on one decoder cannot change another).'
                 ' No decoder path refuses a PDU for its length alone: length guards ahead of the function-table lookup are evaluated for every legal length 1..253.'
                 ' No registered message class (nor a package base) defines __len__ / __bool__ while the decoders test the fresh instance for truth; IllegalFunctionRequest is always built from the received function code.'
-                ' register() writes the (function, sub-function) entry on every path; the bit helpers do not modify their argument on any path.',
+                ' register() writes the (function, sub-function) entry on every path; the bit helpers do not modify their argument on any path.'
+                ' BinaryPayloadBuilder.build() yields whole two-byte elements for the skip_encode paths (shared with C19 R3).',
         'note': 'pack_bitstring/unpack_bitstring arithmetic and struct are trusted; value ranges are not decided. The MEI object list is decided by C20.',
         'technique': 'abstract interpretation to wire-layout summaries compared with frozen spec tables; constant folding of decoder tables (static)',
     },
@@ -224,7 +235,8 @@ CLAIMS = {
                 ' The list of silent units belongs to one transaction manager.'
                 ' The size _recv computed is the size passed to the transport read on every path of the synchronous clients.'
                 ' On the exception-reply path the second read asks for _calculate_exception_length() - min_size bytes.'
-                ' _transact reads the reply with the predicted length unchanged (a local echo is a read of its own).',
+                ' _transact reads the reply with the predicted length unchanged (a local echo is a read of its own).'
+                ' The exception test of _recv compares the function code read from the reply on every path of a known framing.',
         'note': 'Assumes getValues(fc, a, n) returns n values; binary overhead exact only without delimiter escaping. Two known findings (Modbus Plus predictions).',
         'technique': 'affine comparison of prediction functions with layout-summary lengths (static)',
     },
@@ -235,7 +247,8 @@ CLAIMS = {
                 'object that fits an empty page vs. 245); the continuation dataflow (next_object_id / more_follows / object count / header '
                 'packed after the objects / decode object loop); and the category id sets of the identity factory, constant-folded for every start id and both outcomes of the start-object-populated test.'
                 ' The identity store hands out and stores the configured objects unchanged; one known finding: all ModbusDeviceIdentification instances share one class-level object table.'
-                ' The identity constructor stores the configured objects themselves.',
+                ' The identity constructor stores the configured objects themselves.'
+                ' The TCP receiver accepts the MBAP length of a completely filled page (shared with C03 R2).',
         'note': 'Completeness and exactly-once over whole continuation chains for all identities are not decided. One known finding (245-byte object never fits).',
         'technique': 'constant/affine evaluation of the budget arithmetic + path-wise accounted-vs-emitted comparison + constant folding of id sets (static)',
     },
